@@ -164,6 +164,36 @@ func specialSpanLine(c *specialCtx) {
 			cur    [3]uint32
 			src    string
 		}
+		// the text functions writeString applies before the row code: replaceInvalidUTF8 and
+		// splitRunToFit (a run measured before a Resize, cut into pieces that fit)
+		for k := 0; k < 6; k++ {
+			var sb strings.Builder
+			for j, n := 0, 1+r.intn(5); j < n; j++ {
+				if r.chance(1, 5) {
+					sb.WriteString(pick(r, []string{"\xff", "\xc3", "\xe2\x82", "\xf0\x9f", "\x80", "\xed\xa0\x80", "\xc0\xaf", "\xf4\x90\x80\x80"}))
+				} else {
+					sb.WriteString(pick(r, slPieces))
+				}
+			}
+			txt := sb.String()
+			c.count("text/fixutf8")
+			c.tally("spanline:fixutf8")
+			if impl, model := orDash(hex.EncodeToString([]byte(te.VerifReplaceInvalidUTF8(txt)))), d.ask("fixutf8 "+orDash(hex.EncodeToString([]byte(txt)))); impl != model {
+				c.violation("spanline-fixutf8", fmt.Sprintf("replaceInvalidUTF8(%q): impl[%s] model[%s]", txt, impl, model), txt)
+			}
+			valid := te.VerifReplaceInvalidUTF8(txt)
+			limit := r.intn(textWidth(valid) + 2)
+			hd, hw, rs, rw, ok := te.VerifSplitRunToFit(valid, limit)
+			impl := "none"
+			if ok {
+				impl = fmt.Sprintf("%s %d %s %d", orDash(hex.EncodeToString([]byte(hd))), hw, orDash(hex.EncodeToString([]byte(rs))), rw)
+			}
+			c.count("text/fit")
+			c.tally("spanline:fit")
+			if model := d.ask(fmt.Sprintf("fit %s %d", orDash(hex.EncodeToString([]byte(valid))), limit)); impl != model {
+				c.violation("spanline-fit", fmt.Sprintf("splitRunToFit(%q, %d): impl[%s] model[%s]", valid, limit, impl, model), valid)
+			}
+		}
 		var rows []rowIn
 		if i == 0 {
 			// regression: the minimal rows of repaired defects run first, whatever the seed.
